@@ -55,6 +55,11 @@ def label_of_value(v: ast.expr) -> str:
         return root_label(v.func.value)
     if isinstance(v, ast.Constant):
         return "const"
+    if isinstance(v, (ast.List, ast.Tuple)) and v.elts:
+        # a value re-encoded piecewise ([self.x.real, self.x.imag]) still comes from self.x
+        roots = {root_label(e).split(".")[0] for e in v.elts}
+        if len(roots) == 1:
+            return roots.pop()
     if isinstance(v, ast.Subscript) and isinstance(v.value, ast.Name) and isinstance(v.slice, ast.Attribute):
         return root_label(v.slice)  # table lookup keyed by an attribute: node_kinds[self.kind]
     return root_label(v)
